@@ -114,7 +114,11 @@ def uses_caller(nodes):
     for n in nodes:
         if n[0] in ("CB", "CN", "CP"):
             return True
-        for sub in ((n[2],) if n[0] == "IF" else (n[3],) if n[0] == "FOR" else (n[1], n[2]) if n[0] == "TRY" else (n[1],) if n[0] == "TF" else ()):
+        subs = (n[2],) if n[0] == "IF" else (n[3],) if n[0] == "FOR" else (n[1], n[2]) if n[0] == "TRY" else (n[1],) if n[0] == "TF" else ()
+        if n[0] == "CC":
+            # the body of a call (and, through closures, its nested defs) sees the `caller` of the enclosing callable
+            subs = (n[4],) + tuple(nd["body"] for nd in n[5])
+        for sub in subs:
             if uses_caller(sub):
                 return True
     return False
@@ -279,7 +283,11 @@ def scenario(doc, incdoc, use_base, boom_mode, res, rc, handler_desc):
             run_extras = True
         # the Template can be rendered again with correct results (cache state carried along)
         m2 = model(False, cache)
-        exp2 = m2.render()
+        try:
+            exp2 = m2.render()
+        except tdoc.TooLarge:
+            res.count("skipped_too_large")  # the disarmed document runs to the end and may exceed the step cap
+            return
         state["armed"] = False
         b._verif_boom = None
         try:
@@ -293,7 +301,11 @@ def scenario(doc, incdoc, use_base, boom_mode, res, rc, handler_desc):
             res.violate("second-render-differs", "%s\nsecond render (not armed) gave %r, expected %r" % (what, c05.short(got2), c05.short(exp2)), replay_case=rc)
             return
         m3 = model(True, cache)
-        exp3 = m3.render()
+        try:
+            exp3 = m3.render()
+        except tdoc.TooLarge:
+            res.count("skipped_too_large")
+            return
         try:
             got3 = ("out", t.render_unicode(**ctx))
         except Exception as e:
@@ -376,7 +388,11 @@ def unhandled_extras(lk, t, ctx, m1, exp1, boom, res, what, rc, main_text, inc_t
     # (d) include_error_handler returning True: only differs when the raise point lies inside the include
     Impl.store.clear()
     mi = model(True, {}, include_handler=True)
-    expi = mi.render()
+    try:
+        expi = mi.render()
+    except tdoc.TooLarge:
+        res.count("skipped_too_large")
+        return
     if "include-handled" in mi.events:
         calls = []
 
